@@ -163,6 +163,8 @@ def families(tier):
         (["dpull2", "dfix"], "PPPRRR", "PPPRRRR"),
         (["dfix", "dpull2"], None, "PPPRRRR"),
         (["dfix", "dpush"], None, "PRPRPR"),
+        (["scale", "dpush"], "PRPRPR", "PRPRPRPR"),
+        (["dpush", "scale"], None, "PRPRPR"),
         (["dpush", "dfix"], None, "PRPRPR"),
         (["dfix", "dfix", "dfix"], None, "PPPRR"),
         (["dfix", "dpull2", "scale", "dfix"], None, "PPPRRR"),
